@@ -293,6 +293,17 @@ Proof.
     destruct (add_bits bb _ Cb Hpl) as (x & Ex & Cx & _ & Ax).
     exists x. split; [exact Ex|]. split; [exact Cx|]. rewrite Ax, Ab, A0.
     rewrite !map_map. cbn [abs_field f_val]. now rewrite <- app_assoc.
+  - intros [= <-]. exists s0. split; [reflexivity|]. split; [exact C0|]. exact A0.
+Qed.
+
+(* a fragmentation rule at the byte level: Buffer(b'', 0, RIGHT) + rule id, nothing else *)
+Theorem bcompress_fragmentation pd r d : canon (brule_id r) -> brule_nature r = Fragmentation ->
+  exists x, bcompress pd r d = Ok x /\ canon x /\ abs x = abs (brule_id r).
+Proof.
+  intros Hid HN. unfold bcompress.
+  destruct empty_buf as (e & Ee & Ce & Ae). rewrite Ee. cbn [bind].
+  destruct (add_bits e (brule_id r) Ce Hid) as (s0 & E0 & C0 & _ & A0). rewrite E0. cbn [bind].
+  rewrite Ae in A0. cbn [app] in A0. rewrite HN. exists s0. auto.
 Qed.
 
 (* ---- rule-id dispatch ----------------------------------------------------------------------- *)
